@@ -19,9 +19,11 @@ BOUNDS = dict(
     quick=dict(groups="12 (magnetic) point groups on compatible lattices: C1 Ci C2v D2h(fcc-free) C4v D4h C3v D6h Oh(fcc) grey C4 and D3d, black-white 4'mm' and 6'",
                tensors="rank 0..3, leading non-Cartesian axis of size 0/2, symbolic (complex where conjugation is involved), |data|<=1 for the 1e-12 tolerance",
                pairs="action law for g in generators + 3 further elements, h in the whole group", kinds="every (TR,Inv) Transform combination at rank 2, 2-3 per other rank", transforms="11 (TR,Inv) Transform combinations",
-               star="symbolic k in boxes of half width 1/16 around Gamma, zone-boundary, axis, plane and generic centres (5 boxes per group, groups of order <= 16)"),
+               star="symbolic k: a 3-parameter box in general position (all groups); 6 one-parameter lines k0+t*d, |t|<=1/16, through Gamma and a zone-boundary point (order <= 16); "
+                    "2 planes and 2 three-parameter boxes at Gamma / zone boundary (order <= 4)"),
     thorough=dict(groups="all 32 point groups, their grey groups and 12 black-white groups", tensors="as quick", pairs="all pairs (g,h) for groups of order <= 24, generators + 3 further elements x whole group above",
-                  transforms="11 (TR,Inv) Transform combinations", star="symbolic k in boxes of half width 1/8 tiling [-1/2,1/2]^3 (125 boxes) for groups of order <= 16, 9 boxes for larger"))
+                  transforms="11 (TR,Inv) Transform combinations", star="as quick plus 16 lines through 4 high-symmetry points for every group, 6 planes and 4 boxes for order <= 4, and 64 boxes of half width 1/8 tiling "
+                       "[-1/2,1/2]^3 for Ci, C2v and 22'2'"))
 EXPLANATION = ("Groups are built by the real PointGroup.__init__ from concrete generators; closure, identity, inverses, orthogonality and lattice invariance are decided "
                "by running the real __mul__/__eq__/transform_reduced_vector on the exact rational values of the stored doubles. The real transform_tensor, symmetrize_tensor, "
                "symmetrize, Transform and star then run on symbolic tensor data / a symbolic k-point; z3 decides the action law g(hT)=(gh)T, the explicit rotation formula, "
@@ -30,8 +32,9 @@ ASSUMPTIONS = ["generators are orthogonal matrices of a crystallographic (magnet
                "transformTR / transformInv are commuting involutions (true for every pair used in /repo)",
                "|tensor data| <= 1 for tolerance-shaped obligations", "k-point inside the stated box"]
 OUTSIDE = ["groups from a spacegroup object (irrep package) — only generator lists and the dictionary constructor are driven",
-           "star(k): k outside [-1/2,1/2]^3 and, in the quick tier, outside the listed boxes; completeness is claimed up to (|G|-1)*SYMMETRY_PRECISION "
-           "(the chain of pairwise tolerance comparisons the algorithm performs)",
+           "star(k): k outside the listed lines / planes / boxes — 2- and 3-parameter neighbourhoods of symmetry elements are covered only for groups of order <= 4 "
+           "(for larger groups z3's nonlinear arithmetic does not finish the enumeration of the tolerance cells); completeness is claimed as 'linked by a chain of "
+           "images closer than SYMMETRY_PRECISION', i.e. up to (|G|-1)*SYMMETRY_PRECISION, which is what the pairwise tolerance comparisons of the algorithm can guarantee",
            "gen_symmetric_tensor / get_symmetric_components (random data, string listing)", "IEEE rounding inside a single matrix product (doubles are exact rationals)"]
 STUBS = ["np.linalg.norm(x, axis=-1).min() < c in PointGroup.star: returned as the equivalent z3 disjunction  OR_i sum_c x_ic^2 < c^2 (no sqrt atoms, no argmin forks)",
          "np.linalg.det/inv/norm on exact 3x3 rational matrices: adjugate formula / sqrt of the exact sum",
@@ -83,11 +86,30 @@ def group_spec(name):
     return g, lat, ORDER[name]
 
 
-def build(name, seed=0):
-    """the real PointGroup on real doubles (call before shadowing)"""
+class BuildFailed(Exception):
+    pass
+
+
+def build(name, seed=0, cap=20):
+    """the real PointGroup on real doubles (call before shadowing); a construction that does not finish within `cap` seconds
+    (the generation loop only stops at 1000 elements) or raises is a BuildFailed — reported as a violation by the axioms case"""
+    import signal
     gens, lat, order = group_spec(name)
-    gens = [PS.Rotation(g[1], list(g[2])) if isinstance(g, tuple) else g for g in gens]
-    pg = PS.PointGroup(gens, real_lattice=lattices(seed)[lat])
+
+    def _alarm(*a):
+        raise BuildFailed(f"PointGroup.__init__ did not terminate within {cap} s for the generators of {name}")
+    old = signal.signal(signal.SIGALRM, _alarm)
+    signal.alarm(cap)
+    try:
+        gens = [PS.Rotation(g[1], list(g[2])) if isinstance(g, tuple) else g for g in gens]
+        pg = PS.PointGroup(gens, real_lattice=lattices(seed)[lat])
+    except BuildFailed:
+        raise
+    except Exception as e:
+        raise BuildFailed(f"PointGroup.__init__ raised {type(e).__name__}: {e}"[:300])
+    finally:
+        signal.alarm(0)
+        signal.signal(signal.SIGALRM, old)
     return pg, gens, order
 
 
@@ -149,7 +171,12 @@ def _fmat(A):
 
 
 def case_axioms(rec, gname):
-    pg, gens, order = build(gname)
+    rec.witness = lambda env: dict(test="axioms", group=gname)
+    try:
+        pg, gens, order = build(gname)
+    except BuildFailed as e:
+        rec.explore(lambda rec: rec.concrete("PointGroup.__init__ builds the finite group from valid generators", False, str(e), key="PointGroup.__init__ fails on valid generators"), [])
+        return
     G = pg.symmetries
     n = len(G)
     shadow([PS])
@@ -234,53 +261,47 @@ def _wit(gname, rank, lead, kind, T, **kw):
     return lambda env: dict(group=gname, rank=rank, lead=list(lead), kind=kind, T=env.arr(T), **kw)
 
 
-def case_action(rec, gname, rank, lead, kind, allpairs):
+def case_tensor(rec, gname, rank, lead, action_kinds, project_kinds, allpairs):
+    """action law + rotation formula (action_kinds) and projection properties of symmetrize_tensor / symmetrize (project_kinds)"""
     pg, gens, order = build(gname)
     G = pg.symmetries
     n = len(G)
-    _, trTR, trInv, cplx = kind_by_name(rank, lead, kind)
-    shadow([PS])
-    T = _tensor(rank, lead, cplx)
+    shadow([PS, ER])
     if allpairs:
         gsel = list(range(n))
     else:
         gsel = sorted(set([i for i in range(n) if any(G[i] == (PS.from_string_prod(g) if isinstance(g, str) else g) for g in gens)] + [n - 1, n // 2, n // 3]))
 
     def body(rec):
-        T0 = T.copy()
-        hT = [h.transform_tensor(T, rank, trTR, trInv) for h in G]
-        rec.witness = _wit(gname, rank, lead, kind, T, test="oracle")
-        rec.close("transform_tensor == rotation of every Cartesian index, then TR/Inv transforms", sarr(hT), sarr([oracle_transform(h, T, rank, trTR, trInv) for h in G]),
-                  1e-13, key=f"transform_tensor differs from the rotation formula ({kind})")
-        rec.eq("input tensor not modified", T, T0, key="transform_tensor modifies its input")
-        for ig in gsel:
-            g = G[ig]
-            rec.witness = _wit(gname, rank, lead, kind, T, test="action", g=ig)
-            lhs = [g.transform_tensor(x, rank, trTR, trInv) for x in hT]
-            rhs = [(g * h).transform_tensor(T, rank, trTR, trInv) for h in G]
-            rec.close(f"g(hT) == (g*h)T for all h, g=#{ig}", sarr(lhs), sarr(rhs), 1e-12, key=f"transform_tensor is not a group action ({kind})")
-    rec.explore(body, [])
-
-
-def case_project(rec, gname, rank, lead, kind):
-    pg, gens, order = build(gname)
-    G = pg.symmetries
-    n = len(G)
-    _, trTR, trInv, cplx = kind_by_name(rank, lead, kind)
-    shadow([PS, ER])
-    T = _tensor(rank, lead, cplx)
-
-    def body(rec):
-        rec.witness = _wit(gname, rank, lead, kind, T, test="project")
-        P = pg.symmetrize_tensor(T, transformTR=trTR, transformInv=trInv, rank=rank)
-        want = sum(oracle_transform(g, T, rank, trTR, trInv) for g in G) / n
-        rec.close("symmetrize_tensor == group average", P, want, 1e-12, key=f"symmetrize_tensor is not the group average ({kind})")
-        rec.close("P(P T) == P T", pg.symmetrize_tensor(P, transformTR=trTR, transformInv=trInv, rank=rank), P, 1e-12, key=f"symmetrize_tensor not idempotent ({kind})")
-        rec.close("g(P T) == P T for every g", sarr([g.transform_tensor(P, rank, trTR, trInv) for g in G]), sarr([P] * n), 1e-12,
-                  key=f"symmetrized tensor not invariant ({kind})")
-        if len(lead) == 1:
-            res = ER.EnergyResult([np.arange(lead[0]) * 0.5], T.copy(), transformTR=trTR, transformInv=trInv, rank=rank, save_mode="")
-            rec.close("PointGroup.symmetrize(EnergyResult) == symmetrize_tensor(data)", pg.symmetrize(res).data, P, 1e-12, key=f"PointGroup.symmetrize differs from symmetrize_tensor ({kind})")
+        for kind in action_kinds:
+            _, trTR, trInv, cplx = kind_by_name(rank, lead, kind)
+            T = _tensor(rank, lead, cplx)
+            T0 = T.copy()
+            hT = [h.transform_tensor(T, rank, trTR, trInv) for h in G]
+            rec.witness = _wit(gname, rank, lead, kind, T, test="oracle")
+            rec.close(f"{kind}: transform_tensor == rotation of every Cartesian index, then TR/Inv transforms", sarr(hT),
+                      sarr([oracle_transform(h, T, rank, trTR, trInv) for h in G]), 1e-13, key=f"transform_tensor differs from the rotation formula ({kind})")
+            rec.eq(f"{kind}: input tensor not modified", T, T0, key="transform_tensor modifies its input")
+            for ig in gsel:
+                g = G[ig]
+                rec.witness = _wit(gname, rank, lead, kind, T, test="action", g=ig)
+                lhs = [g.transform_tensor(x, rank, trTR, trInv) for x in hT]
+                rhs = [(g * h).transform_tensor(T, rank, trTR, trInv) for h in G]
+                rec.close(f"{kind}: g(hT) == (g*h)T for all h, g=#{ig}", sarr(lhs), sarr(rhs), 1e-12, key=f"transform_tensor is not a group action ({kind})")
+        for kind in project_kinds:
+            _, trTR, trInv, cplx = kind_by_name(rank, lead, kind)
+            T = _tensor(rank, lead, cplx)
+            rec.witness = _wit(gname, rank, lead, kind, T, test="project")
+            P = pg.symmetrize_tensor(T, transformTR=trTR, transformInv=trInv, rank=rank)
+            want = sum(oracle_transform(g, T, rank, trTR, trInv) for g in G) / n
+            rec.close(f"{kind}: symmetrize_tensor == group average", P, want, 1e-12, key=f"symmetrize_tensor is not the group average ({kind})")
+            rec.close(f"{kind}: P(P T) == P T", pg.symmetrize_tensor(P, transformTR=trTR, transformInv=trInv, rank=rank), P, 1e-12, key=f"symmetrize_tensor not idempotent ({kind})")
+            rec.close(f"{kind}: g(P T) == P T for every g", sarr([g.transform_tensor(P, rank, trTR, trInv) for g in G]), sarr([P] * n), 1e-12,
+                      key=f"symmetrized tensor not invariant ({kind})")
+            if len(lead) == 1:
+                res = ER.EnergyResult([np.arange(lead[0]) * 0.5], T.copy(), transformTR=trTR, transformInv=trInv, rank=rank, save_mode="")
+                rec.close(f"{kind}: PointGroup.symmetrize(EnergyResult) == symmetrize_tensor(data)", pg.symmetrize(res).data, P, 1e-12,
+                          key=f"PointGroup.symmetrize differs from symmetrize_tensor ({kind})")
     rec.explore(body, [])
 
 
@@ -413,6 +434,26 @@ def _sb(b):
     return b if isinstance(b, SymB) else SymB(z3.BoolVal(bool(b)))
 
 
+def _all(bs, op=z3.And, unit=True):
+    """flat conjunction of SymB (constants folded)"""
+    ts, atoms = [], set()
+    for b in bs:
+        t = z3.simplify(b.t) if z3.is_bool(b.t) and b.t.num_args() == 0 else b.t
+        if (z3.is_true(t) and unit) or (z3.is_false(t) and not unit):
+            continue
+        if (z3.is_false(t) and unit) or (z3.is_true(t) and not unit):
+            return _sb(not unit)
+        ts.append(t)
+        atoms |= b.atoms
+    if not ts:
+        return _sb(unit)
+    return SymB(op(*ts) if len(ts) > 1 else ts[0], atoms)
+
+
+def _any(bs):
+    return _all(bs, z3.Or, False)
+
+
 def _abstract(exprs):
     """replace every arithmetic atom by a propositional constant (same atom -> same constant): an unsat abstraction proves the original unsat"""
     atoms = {}
@@ -458,10 +499,34 @@ def _close_lit(a, b, tol):
     return _sumsq_lt(d - np.round(d), tol)
 
 
-def case_star(rec, gname, centre, dirs, half):
-    pg, gens, order = build(gname)
+def _generic_centre(pg, half):
+    """deterministic search for a rational k in general position: in the box of half width `half` no component of any difference of two images
+    comes near a half-integer (no rounding tie) and no difference comes near a lattice vector"""
+    Ns = [np.round(g.transform_reduced_vector(np.eye(3), pg.recip_lattice)) for g in pg.symmetries]
+    D = np.array([a - b for a in Ns for b in Ns if np.abs(a - b).max() > 0] or [np.zeros((3, 3))])     # k -> k @ D[p]
+    r = random.Random(9)
+    while True:
+        c = [Fr(r.randrange(1, 256), 512) for _ in range(3)]
+        d = np.einsum("i,pij->pj", np.array(c, dtype=float), D)
+        slack = half * np.abs(D).sum(axis=1) + 1e-3
+        dist_half = np.abs(d * 2 - np.round(d * 2))       # distance of 2d to the nearest integer: small <=> d near an integer or half-integer
+        moving = np.abs(D).sum(axis=1) > 0
+        if np.all(dist_half[moving] > 2 * slack[moving]):
+            return tuple(c)
+
+
+def case_stars(rec, gname, regions):
+    built = build(gname)
+    for centre, dirs, half in regions:
+        case_star(rec, gname, centre, dirs, half, built)
+
+
+def case_star(rec, gname, centre, dirs, half, built):
+    pg, gens, order = built
     G = pg.symmetries
     n = len(G)
+    if centre == "generic":
+        centre = _generic_centre(pg, float(half))
     shadow([PS], proxy=NpProxy(linalg=StarLinalg(np.linalg)))
     reset_registry()
     dk = symvec("dk", (len(dirs),), lo=-half, hi=half)      # k = centre + sum_a dk_a * dirs[a]
@@ -490,24 +555,13 @@ def case_star(rec, gname, centre, dirs, half):
         for i in range(n):
             for j in range(i):
                 close[j, i] = _close_lit(imgs[j], imgs[i], tol)
-        f = True
-        for a in range(m):
-            for b in range(a):
-                f = f & ~_sb(close[pos[b], pos[a]])
+        f = _all([~_sb(close[pos[b], pos[a]]) for a in range(m) for b in range(a)])
         _fact(rec, "star elements pairwise distinct modulo the lattice (>= SYMMETRY_PRECISION)", f, key="star lists an image twice")
         # completeness: every image is linked to a listed one by a chain of pairs closer than SYMMETRY_PRECISION (=> within (|G|-1)*SYMMETRY_PRECISION)
         reach = {}
         for i in range(n):
-            if i in pos:
-                reach[i] = True
-            else:
-                r = False
-                for j in range(i):
-                    r = r | (_sb(close[j, i]) & reach[j])
-                reach[i] = r
-        f = True
-        for i in range(n):
-            f = f & reach[i]
+            reach[i] = _sb(True) if i in pos else _any([_all([_sb(close[j, i]), reach[j]]) for j in range(i)])
+        f = _all([reach[i] for i in range(n)])
         _fact(rec, "every image is linked to a star element by a chain of images closer than SYMMETRY_PRECISION", f, key="star misses an image")
     rec.explore(body, [])
 
@@ -516,12 +570,12 @@ def case_star(rec, gname, centre, dirs, half):
 E3 = ((1, 0, 0), (0, 1, 0), (0, 0, 1))
 
 
-def star_regions(tier, order):
+def star_regions(tier, order, gname=""):
     """(centre, directions, half width): k = centre + sum_a t_a * direction_a, |t_a| <= half.  3-parameter boxes where the number of tolerance
     cells stays small (small groups / generic position), 1- and 2-parameter families through the high-symmetry points otherwise"""
     H, Q = Fr(1, 2), Fr(1, 4)
     h = Fr(1, 16)
-    generic = ((Fr(7, 64), Fr(15, 64), Fr(23, 64)), E3, Fr(1, 128))
+    generic = ("generic", E3, Fr(1, 512))
     lines = [(c, (d,), h) for c in ((0, 0, 0), (H, 0, 0), (0, 0, H), (H, H, 0)) for d in ((1, 0, 0), (0, 0, 1), (1, 1, 0), (1, 2, 3))]
     planes = [(c, ds, h) for c in ((0, 0, 0), (H, H, H)) for ds in (((1, 0, 0), (0, 1, 0)), ((1, 0, 0), (0, 0, 1)), ((1, 1, 0), (0, 0, 1)))]
     boxes = [(c, E3, h) for c in ((0, 0, 0), (H, 0, 0), (0, 0, Fr(5, 16)), (Q, Q, 0))]
@@ -530,21 +584,25 @@ def star_regions(tier, order):
     out = [generic] + lines
     if order <= 4:
         cs = [Fr(i, 4) - H + Fr(1, 8) for i in range(4)]
-        out += planes + [((a, b, c), E3, Fr(1, 8)) for a in cs for b in cs for c in cs]
+        out += planes + ([((a, b, c), E3, Fr(1, 8)) for a in cs for b in cs for c in cs] if gname in ("Ci", "C2v", "22'2'") else boxes)
     return out
 
 
 def kinds_for(tier, rank, lead):
+    """(kinds for the action law, kinds for the projection) of one (rank, leading axes) block"""
     names = [k[0] for k in tr_kinds(rank, lead)]
     if tier == "quick":
-        sel = {(0, (2,)): ["odd/odd", "oddconj/ident"], (1, (2,)): ["odd/ident", "ident/odd", "conj/odd"], (2, (2,)): names, (2, ()): [],
-               (3, ()): ["oddtrans021/odd", "oddtrans102/ident"]}[rank, lead]
-        return [n for n in names if n in sel]
+        act = {(0, (2,)): ["odd/odd", "oddconj/ident"], (1, (2,)): ["odd/ident", "ident/odd", "conj/odd"], (2, (2,)): ["oddconj/ident", "trans/ident"],
+               (2, ()): [x for x in names if x not in ("oddconj/ident", "trans/ident")], (3, ()): ["oddtrans021/odd", "oddtrans102/ident"]}[rank, lead]
+        pro = {(0, (2,)): ["oddconj/ident"], (1, (2,)): ["odd/ident", "conj/odd"], (2, (2,)): ["odd/ident"], (2, ()): ["odd/odd", "conj/odd", "trans/ident", "swap/odd"],
+               (3, ()): ["oddtrans021/odd"]}[rank, lead]
+        return act, pro
     if (rank, lead) == (2, ()):
-        return ["trans/ident", "swap/odd"]
+        return ["trans/ident", "swap/odd"], ["trans/ident", "swap/odd"]
     if rank == 3:
-        return ["ident/ident", "odd/odd", "oddconj/ident", "trans/ident", "oddtrans021/odd", "oddtrans102/ident"]
-    return names
+        k3 = ["ident/ident", "odd/odd", "oddconj/ident", "trans/ident", "oddtrans021/odd", "oddtrans102/ident"]
+        return k3, k3
+    return names, names
 
 
 def cases(tier, seed):
@@ -555,12 +613,19 @@ def cases(tier, seed):
         out.append(Case(f"axioms {g}", case_axioms, dict(gname=g), timeout=900))
         out.append(Case(f"products {g}", case_products, dict(gname=g)))
         for rank, lead in ((0, (2,)), (1, (2,)), (2, (2,)), (2, ()), (3, ())):
-            for nm in kinds_for(tier, rank, lead):
-                allpairs = not q and order <= 24
-                out.append(Case(f"action {g} rank={rank} lead={lead} {nm}", case_action, dict(gname=g, rank=rank, lead=lead, kind=nm, allpairs=allpairs), timeout=1500))
-                out.append(Case(f"project {g} rank={rank} lead={lead} {nm}", case_project, dict(gname=g, rank=rank, lead=lead, kind=nm), timeout=900))
-        for c, ds, h in star_regions(tier, order):
-            out.append(Case(f"star {g} k={[str(x) for x in c]}+t*{list(ds)} |t|<={h}", case_star, dict(gname=g, centre=c, dirs=ds, half=h), timeout=1500))
+            act, pro = kinds_for(tier, rank, lead)
+            allpairs = not q and order <= 24
+            chunk = 1 if (rank == 3 and order > 16) or (allpairs and order > 8 and rank >= 2) else (3 if order > 16 else 12)
+            for i in range(0, max(len(act), len(pro)), chunk):
+                a, p = act[i:i + chunk], pro[i:i + chunk]
+                out.append(Case(f"tensor {g} rank={rank} lead={lead} action:{','.join(a)} project:{','.join(p)}", case_tensor,
+                                dict(gname=g, rank=rank, lead=lead, action_kinds=a, project_kinds=p, allpairs=allpairs), timeout=1500))
+        regs = star_regions(tier, order, g)
+        big = [r for r in regs if len(r[1]) == 3 and r[0] != "generic"]
+        small = [r for r in regs if r not in big]
+        for grp in [small[i:i + 4] for i in range(0, len(small), 4)] + [[r] for r in big]:
+            nm = "; ".join(f"{c if c == 'generic' else [str(x) for x in c]}+t*{list(ds)} |t|<={h}" for c, ds, h in grp)
+            out.append(Case(f"star {g} k={nm}", case_stars, dict(gname=g, regions=grp), timeout=1500))
     for rank, lead in ((0, (2,)), (1, ()), (2, (2,)), (3, ()), (3, (2,))):
         out.append(Case(f"transforms rank={rank} lead={lead}", case_transforms, dict(rank=rank, lead=lead)))
     return out
@@ -648,7 +713,10 @@ def replay(rec):
                     if np.abs(PS.TransformProduct([a, b])(T.copy()) - want).max() > 1e-12:
                         errs.append("product")
         return bool(errs), f"Transform kinds failing: {sorted(set(errs))}"
-    pg, gens, order = build(w["group"])
+    try:
+        pg, gens, order = build(w["group"])
+    except BuildFailed as e:
+        return True, f"group {w['group']}: {e}"
     G = pg.symmetries
     n = len(G)
     if test == "axioms":
